@@ -80,6 +80,14 @@ def check_broadcasts(ci, res, who, skip_idx=None):
     return out
 
 
+def PID_BC(ci, r):
+    """is the process still subscribed for broadcasts at the end of the run (last observation line with a `sub=` column)"""
+    for ln in reversed(r['lines']):
+        if ' sub=' in ln:
+            return ln.split(' sub=')[1].split(' ')[0][1:2] == '1'
+    return False
+
+
 def work(case):
     """run one case on the implementation; returns streams for the model comparison, monitor failures, coverage facts"""
     common.ensure_repo_on_path()
@@ -93,6 +101,16 @@ def work(case):
         failures.append(dict(signature=sig, clause=clause, case=_case_dict(case), detail=detail))
 
     r = ci.run_remote(prog, sched, fail)
+    if kind == 'unsub':
+        # impl-only: the RPC unsubscription of the terminating process fails; its broadcast subscription is removed all the same
+        for a in r['after']:
+            if a['op'].startswith('bcast') and (a['scheduled'] != 0 or a['changed']):
+                add('delivered-after-termination', 'a terminated process no longer receives messages (its RPC unsubscription failed, '
+                    'the broadcast subscription must be gone all the same)', a)
+        if r['terminated'] and PID_BC(ci, r):
+            add('delivered-after-termination', 'a terminated process no longer receives messages: still subscribed for broadcasts',
+                dict(subscriptions=r['lines'][-2][:200] if len(r['lines']) > 1 else None))
+        return dict(streams=[], failures=failures, facts=dict(hist=r['hist'], handled=1, nlines=len(r['lines'])))
     if prog not in ci.IMPL_ONLY_PROGRAMS:
         streams.append((r['ops'], r['lines']))
     # subscriptions are the process's own: while it is live it stays reachable, whatever other processes on the same communicator
@@ -274,6 +292,12 @@ def gen_cases(ctx):
         npos = n_positions('PauseFault') + 3
         for s in schedules(npos, MESSAGES + ['env resume'], k):
             cases.append(('twin', 'PauseFault', s, None))
+    # the RPC unsubscription fails while the process terminates (impl-only)
+    for prog in PROGS_QUICK:
+        npos = n_positions(prog) + (2 if prog in ci.WAITERS else 0)
+        for s in [{}] + list(schedules(npos, ['rpc kill', 'bcast kill'], 1)):
+            for cls in ('TimeoutError', 'ConnectionClosed', 'Injected'):
+                cases.append(('unsub', prog, s, ('unsub', cls)))
     # a program whose pause() / kill() answer later, with a future inside a future (impl-only: twin comparison)
     for k in range(1, 3):
         npos = n_positions('Deferred') + 3
